@@ -72,6 +72,52 @@ Theorem Glue_stream_mult_is_trie_offer :
 Proof. exact stream_mult_hist. Qed.
 Print Assumptions Glue_stream_mult_is_trie_offer.
 
+(** LCancel changes no registration and no other subscriber; the ended
+    subscriber takes no further deliveries. *)
+Theorem Glue_stream_cancel_step :
+  forall h st s st',
+    StreamLts.step h st (StreamLts.LCancel s) = Some st' ->
+    StreamLts.st_tree st' = StreamLts.st_tree st /\ StreamLts.st_feeds st' = StreamLts.st_feeds st /\
+    (forall s', s' <> s -> nth_error (StreamLts.st_subs st') s' = nth_error (StreamLts.st_subs st) s') /\
+    exists sb sb', nth_error (StreamLts.st_subs st) s = Some sb /\
+                   nth_error (StreamLts.st_subs st') s = Some sb' /\
+                   StreamLts.regq sb' = StreamLts.regq sb /\ StreamLts.s_end sb' = true /\
+                   (forall it, StreamLts.deliver st' it sb' = sb').
+Proof. exact stream_cancel_step. Qed.
+Print Assumptions Glue_stream_cancel_step.
+
+(** LUnreg removes (at most) the last registered path of the ended subscriber
+    and touches nothing else ... *)
+Theorem Glue_stream_unreg_step :
+  forall h st s st',
+    StreamLts.step h st (StreamLts.LUnreg s) = Some st' ->
+    StreamLts.st_tree st' = StreamLts.st_tree st /\ StreamLts.st_feeds st' = StreamLts.st_feeds st /\
+    (forall s', s' <> s -> nth_error (StreamLts.st_subs st') s' = nth_error (StreamLts.st_subs st) s') /\
+    exists sb sb' gone, nth_error (StreamLts.st_subs st) s = Some sb /\
+                        nth_error (StreamLts.st_subs st') s = Some sb' /\
+                        StreamLts.s_end sb = true /\
+                        StreamLts.regq sb = StreamLts.regq sb' ++ gone /\ (List.length gone <= 1)%nat.
+Proof. exact stream_unreg_step. Qed.
+Print Assumptions Glue_stream_unreg_step.
+
+(** ... which on the trie is the removal closure of that (path, client): the
+    client's registrations become the shorter list, every other client keeps
+    its registrations, hence the offer count StreamLts computes for it is
+    still the count of the real trie after the removal. *)
+Theorem Glue_registered_exactly_remove :
+  forall b c qs q,
+    registered_exactly b c (qs ++ [q]) -> ~ In q qs -> registered_exactly (remove_root q c b) c qs.
+Proof. exact registered_exactly_remove. Qed.
+Print Assumptions Glue_registered_exactly_remove.
+
+Theorem Glue_stream_unreg_others_offers :
+  forall b c c' q (s' : StreamLts.sub) prefix p,
+    c' <> c -> registered_exactly b c' (StreamLts.regq s') ->
+    StreamLts.mult s' (prefix ++ p) =
+    count_occ Nat.eq_dec (update_notification (remove_root q c b) prefix [p]) c'.
+Proof. exact stream_unreg_others_offers. Qed.
+Print Assumptions Glue_stream_unreg_others_offers.
+
 (** SubModel.offers is the number of calls Server.Update -> UpdateNotification
     makes on the real trie. *)
 Theorem Glue_sub_offers_is_trie_offer :
@@ -477,19 +523,17 @@ Theorem Glue_stream_write_delsub_sim :
 Proof. exact stream_write_delsub_sim. Qed.
 Print Assumptions Glue_stream_write_delsub_sim.
 
-(** Where they differ: StreamLts attaches a leaf at the bare target path; the
-    cache (CacheModel, SubModel, the Go code since 30e1165) rejects the empty
-    index path. *)
-Theorem Glue_stream_bare_target_differ :
-  let h := StreamLts.mkHyps false true in
-  let st0 := StreamLts.init 1 [] in
-  (exists st', StreamLts.write h st0 0%nat (StreamLts.WUpd ["dev"] 7%Z 1%Z) = Some (st', StreamLts.WOk) /\
-               StreamLts.cache_at st' ["dev"] = Some (7%Z, 1%Z)) /\
-  SubModel.gnmi_update1 None (s_noti "dev" [] (7%Z, 1%Z)) = SubModel.URes None [] true /\
-  snd (target_gnmi_update (new_target "dev" (Cfg 0%Z true [])) 0%Z (sub_notif (s_noti "dev" [] (7%Z, 1%Z))))
-  = GErr err_invalid_path.
-Proof. exact stream_bare_target_differ. Qed.
-Print Assumptions Glue_stream_bare_target_differ.
+(** The bare target path (empty index path): everybody rejects it.  (Up to
+    StreamLts as of 96c7803 this was a difference -- StreamLts attached a leaf
+    there; its owner added the guard.) *)
+Theorem Glue_stream_bare_target_agree :
+  forall h st w name v ts tr t now,
+    name <> ""%string ->
+    StreamLts.write h st w (StreamLts.WUpd [name] v ts) = None /\
+    SubModel.gnmi_update1 tr (s_noti name [] (v, ts)) = SubModel.URes tr [] true /\
+    gnmi_update1 t now (sub_notif (s_noti name [] (v, ts))) = (t, Err err_invalid_path).
+Proof. exact stream_bare_target_agree. Qed.
+Print Assumptions Glue_stream_bare_target_agree.
 
 (** ** PipelineModel's cache stage (C01)
 
@@ -510,7 +554,6 @@ Theorem Glue_pipe_update_one_sim :
       let R := gnmi_update1 t now (rec_notif emb r) in
       match PipelineModel.w_fault w' with
       | Some (PipelineModel.FPanic 1%N) => exists x, snd R = Panic x
-      | Some (PipelineModel.FPanic 2%N) => snd R = Err err_invalid_path
       | Some (PipelineModel.FPanic _) => False
       | Some (PipelineModel.FUnmodelled _) => True
       | None =>
@@ -538,7 +581,6 @@ Theorem Glue_pipe_delete_one_sim :
     let R := gnmi_remove t (Notif ts (Some (pipe_gp pre)) None [] [pipe_gp d] false) in
     match PipelineModel.w_fault w' with
     | Some (PipelineModel.FPanic 1%N) => exists x, snd R = Panic x
-    | Some (PipelineModel.FPanic 2%N) => exists removed, snd R = Ok removed
     | Some (PipelineModel.FPanic _) => False
     | Some (PipelineModel.FUnmodelled _) => True
     | None =>
@@ -596,25 +638,47 @@ Theorem Glue_scalar_emb_respects :
 Proof. exact (conj scalar_emb_equal scalar_emb_eqb). Qed.
 Print Assumptions Glue_scalar_emb_respects.
 
-(** ... and fail on doubles: proto.Equal identifies +0 and -0, PipelineModel
-    compares bit patterns; consequence for Target.gnmiUpdate at an equal
-    timestamp. *)
-Theorem Glue_pipe_zero_update_differ :
+(** ([scalar_ok] now contains floats and doubles: PipelineModel's tv_eqb
+    follows proto.Equal on floating point since its owner's repair.)  The two
+    former differences, as agreements: the same leaf written at the same
+    timestamp with +0 then -0 is a rejected duplicate in both models ... *)
+Theorem Glue_pipe_zero_update_agree :
   let r0 := ex_rec 5 (PipelineModel.TVDouble 0) in
   let r1 := ex_rec 5 (PipelineModel.TVDouble (2 ^ 63)) in
-  let w2 := PipelineModel.cache_update_one (PipelineModel.cache_update_one ex_w0 r0) r1 in
+  let w1 := PipelineModel.cache_update_one ex_w0 r0 in
   let t1 := fst (gnmi_update1 (new_target "dev" (Cfg 0 true [])) 0 (rec_notif scalar_emb r0)) in
-  PipelineModel.hget (PipelineModel.w_heap w2) 0%nat = Some r1 /\ PipelineModel.w_fault w2 = None /\
-  snd (gnmi_update1 t1 0 (rec_notif scalar_emb r1)) = Err err_stale.
-Proof. exact pipe_zero_update_differ. Qed.
-Print Assumptions Glue_pipe_zero_update_differ.
+  PipelineModel.cache_update_one w1 r1 = w1 /\
+  PipelineModel.hget (PipelineModel.w_heap w1) 0%nat = Some r0 /\
+  gnmi_update1 t1 0 (rec_notif scalar_emb r1) = (add_int t1 md_stale_count 1, Err err_stale).
+Proof. exact pipe_zero_update_agree. Qed.
+Print Assumptions Glue_pipe_zero_update_agree.
 
-(** an empty index path: PipelineModel says panic, CacheModel (and the code
-    since 30e1165) "invalid path"; unreachable through [ingest]. *)
-Theorem Glue_pipe_empty_index_differ :
+(** ... and an empty index path is an error that changes nothing in both. *)
+Theorem Glue_pipe_empty_index_agree :
   let r := {| PipelineModel.lr_ts := 1; PipelineModel.lr_prefix := ex_gp "dev" "" [];
               PipelineModel.lr_path := ex_gp "" "" []; PipelineModel.lr_val := PipelineModel.TVInt 1 |} in
-  PipelineModel.w_fault (PipelineModel.cache_update_one ex_w0 r) = Some (PipelineModel.FPanic 2) /\
-  snd (gnmi_update1 (new_target "dev" (Cfg 0 true [])) 0 (rec_notif scalar_emb r)) = Err err_invalid_path.
-Proof. exact pipe_empty_index_differ. Qed.
-Print Assumptions Glue_pipe_empty_index_differ.
+  PipelineModel.cache_update_one ex_w0 r = ex_w0 /\
+  gnmi_update1 (new_target "dev" (Cfg 0 true [])) 0 (rec_notif scalar_emb r)
+  = (new_target "dev" (Cfg 0 true []), Err err_invalid_path).
+Proof. exact pipe_empty_index_agree. Qed.
+Print Assumptions Glue_pipe_empty_index_agree.
+
+(** Cache.Reset / Target.Reset: cutting the same roots off both trees keeps the
+    states related; the announcement per root is the delete notification
+    Target.Reset builds. *)
+Theorem Glue_pipe_reset_roots_sim :
+  forall (emb : PipelineModel.tv -> ValueModel.tv) (okv : PipelineModel.tv -> Prop) roots w t,
+    Rp emb okv w t ->
+    Rp emb okv
+       {| PipelineModel.w_tree :=
+            fold_left (fun tr r => fst (CTreeModel.delete tr [r])) roots (PipelineModel.w_tree w);
+          PipelineModel.w_heap := PipelineModel.w_heap w; PipelineModel.w_gen := PipelineModel.w_gen w;
+          PipelineModel.w_sub := PipelineModel.w_sub w; PipelineModel.w_fault := PipelineModel.w_fault w |}
+       (set_tree t (fold_left (fun tr r => fst (CTreeModel.delete tr [r])) roots (t_tree t))).
+Proof. exact pipe_reset_roots_sim. Qed.
+Print Assumptions Glue_pipe_reset_roots_sim.
+
+Theorem Glue_pipe_root_delete_agree :
+  forall name r, del_notif (PipelineModel.root_delete name r) = delete_noti name r 0 ["*"].
+Proof. exact pipe_root_delete_agree. Qed.
+Print Assumptions Glue_pipe_root_delete_agree.
